@@ -460,17 +460,56 @@ class AbstractScore(Contract):
             + reach(h, d) + cache_ok(h, d) + cache_effect(c.h0, h, d)
 
 
+# ghost state of one call of the tie-breaker rule (fields of the dispatcher):
+#   $$tb_S[k]    the list the k-th scoring function returned,   $$tb_best[k]  the best score of round k,
+#   $$tb_lvl[o]  number of rounds operation o has survived,     $tb_K         number of rounds evaluated
+def _tb(h, d):
+    return h.get("$$tb_S", d), h.get("$$tb_best", d), h.get("$$tb_lvl", d), h.get("$tb_K", d)
+
+
+def _tb_score(h, D, S, k, o):
+    """score of operation o in round k"""
+    return h.at(z3.Select(S, k), D.it.jid(o))
+
+
+def tb_levels(h, d, A, K, cand=None):
+    """every available operation A[r] survived lvl rounds with the best score of each of them and, if it is out
+    (lvl < K), lost round lvl strictly; those still in (lvl == K) are the candidates"""
+    D = Disp(h, d)
+    S, best, lvl, _ = _tb(h, d)
+    r, k = bv("rt"), bv("kt")
+    a = h.at(A, r)
+    la = z3.Select(lvl, a)
+    out = [("levels", forall([r], imp(rng(r, 0, h.len(A)), z3.And(
+        la >= 0, la <= K, imp(la < K, _tb_score(h, D, S, la, a) < z3.Select(best, la)),
+        *([imp(la == K, member(h, cand, a))] if cand is not None else []))), patterns=[h.at(A, r)])),
+        ("survivors-had-the-best-score-of-every-round-they-survived", forall([r, k], imp(
+            z3.And(rng(r, 0, h.len(A)), 0 <= k, k < la), _tb_score(h, D, S, k, a) == z3.Select(best, k)),
+            patterns=[z3.MultiPattern(h.at(A, r), z3.Select(best, k))]))]
+    return out
+
+
 @register
 class TieBreakerRule(_Rule):
+    """score_based_rule_with_tie_breaker(fs).rule for ANY scoring functions honouring the abstract contract: returns an
+    available operation that is lexicographically best under the scores the functions returned (ghost: the lists they
+    returned, the best score of each round, the round in which each available operation dropped out)"""
     name = "score_based_rule_with_tie_breaker.rule"
     properties = ("C04",)
-    relevant = {n: SHAPE + ["candidates-are-available-operations", "one-score-per-job", "cached-entries-kept",
-                            "definition:MemberIdx", "result-are-operations", "result-are-ready",
-                            "non-empty-while-some-job-is-unfinished", "entry-is-cached-afterwards",
-                            "some-operation-available", "scoring-functions-list-untouched"]
-                for n in ("candidates-are-available-operations", "selected-is-available",
-                          "selects-a-ready-operation-of-the-instance", "scoring-functions-list-untouched",
-                          "ValueError", "IndexError")}
+    _HYP = SHAPE + ["candidates-are-available-operations", "one-score-per-job", "cached-entries-kept",
+                    "definition:MemberIdx", "result-are-operations", "result-are-ready", "result-in-job-order",
+                    "non-empty-while-some-job-is-unfinished", "entry-is-cached-afterwards",
+                    "some-operation-available", "scoring-functions-list-untouched", "levels",
+                    "survivors-had-the-best-score-of-every-round-they-survived", "candidates-survived-every-round",
+                    "rounds", "score-lists", "definition:tb-level", "cached-values-old-or-fresh",
+                    "result-is-a-cached-list-or-new"]
+    relevant = dict.fromkeys(
+        ("candidates-are-available-operations", "selected-is-available",
+         "selects-a-ready-operation-of-the-instance", "scoring-functions-list-untouched",
+         "ValueError", "IndexError", "levels",
+         "survivors-had-the-best-score-of-every-round-they-survived", "candidates-survived-every-round",
+         "rounds", "score-lists", "selected-survived-every-round",
+         "all-rounds-evaluated-or-the-selected-is-the-only-survivor"), _HYP)
 
     def setup(self, eng, st, args):
         lst = fresh("score_functions")
@@ -479,12 +518,64 @@ class TieBreakerRule(_Rule):
         st.assume(forall([q], imp(rng(q, 0, st.heap.len(lst)), st.heap.at(lst, q) != 0)))
         self.globals = {"score_functions": Val(LIST(CALLREF("abstract:score_function")), lst)}
 
+    def modifies(self, c):
+        fr = query_frame(c, c["dispatcher"])
+        for f in ("$$tb_S", "$$tb_best", "$$tb_lvl", "$tb_K"):
+            fr.fields[f] = [c["dispatcher"]]
+        return fr
+
+    def ensures(self, c):
+        h, d, o = c.h, c["dispatcher"], c.result
+        D = Disp(h, d)
+        A = h.get(AVAIL_VAL, d)
+        S, best, lvl, K = _tb(h, d)
+        fl = self.globals["score_functions"].t
+        r = bv("rt")
+        return _Rule.ensures(self, c) + [
+            ("rounds", z3.And(K >= 0, K <= h.len(fl))),
+            ("selected-survived-every-round", z3.Select(lvl, o) == K)] + tb_levels(h, d, A, K) + [
+            # lexicographically best: with the two clauses above, every available operation either has the selected
+            # one's score in every evaluated round, or has it in the rounds before some round and a smaller one there;
+            # and the rounds that were not evaluated cannot matter:
+            ("all-rounds-evaluated-or-the-selected-is-the-only-survivor", z3.Or(K == h.len(fl), forall(
+                [r], imp(z3.And(rng(r, 0, h.len(A)), z3.Select(lvl, h.at(A, r)) == K), h.at(A, r) == o),
+                patterns=[h.at(A, r)])))]
+
     @property
     def ghost_after(self):
-        def hook(c, st):
+        def start(c, st):
             h, d = st.heap, c["dispatcher"]
             st.assume(member_axiom(h, h.get(AVAIL_VAL, d)), "definition:MemberIdx")
-        return {"candidates = dispatcher.available_operations()": hook}
+            from .core import ZERO_ARR
+            st.heap = h.put("$$tb_lvl", d, ZERO_ARR).put("$tb_K", d, z3.IntVal(0))
+
+        def scored(c, st):
+            h, d = st.heap, c["dispatcher"]
+            i = c.eng.loop_stack[-1]
+            st.heap = h.put("$$tb_S", d, z3.Store(h.get("$$tb_S", d), i, st.env["scores"].t))
+
+        def best(c, st):
+            h, d = st.heap, c["dispatcher"]
+            i = c.eng.loop_stack[-1]
+            st.heap = h.put("$$tb_best", d, z3.Store(h.get("$$tb_best", d), i, st.env["best_score"].t))
+
+        def filtered(c, st):
+            # the operations that were still in and have the best score of this round survive one more round
+            h, d = st.heap, c["dispatcher"]
+            D = Disp(h, d)
+            i = c.eng.loop_stack[-1]
+            S, bst, lvl, _ = _tb(h, d)
+            new = fresh("tb_lvl", lvl.sort())
+            a = bv("at")
+            st.assume(forall([a], z3.Select(new, a) == z3.If(
+                z3.And(z3.Select(lvl, a) == i, _tb_score(h, D, S, i, a) == z3.Select(bst, i)), i + 1, z3.Select(lvl, a)),
+                patterns=[z3.Select(new, a)]), "definition:tb-level")
+            st.heap = h.put("$$tb_lvl", d, new).put("$tb_K", d, i + 1)
+            st.assume(member_axiom(st.heap, st.env["candidates"].t), "definition:MemberIdx")
+        return {"candidates = dispatcher.available_operations()": start,
+                "scores = scoring_function(dispatcher)": scored,
+                "best_score = max((scores[operation.job_id] for operation in candidates))": best,
+                "candidates = [operation for operation in candidates if scores[operation.job_id] == best_score]": filtered}
 
     @property
     def loops(self):
@@ -493,18 +584,29 @@ class TieBreakerRule(_Rule):
             D = Disp(h, d)
             cand = k.v("candidates")
             A = h.get(AVAIL_VAL, d)
-            r = bv("rc")
+            r, q = bv("rc"), bv("kq")
             fl = self.globals["score_functions"].t
+            S, best, lvl, K = _tb(h, d)
             return [("candidates-are-available-operations", z3.And(
                 cand > 0, cand < h.alloc, h.len(cand) > 0, h.get(AVAIL_HAS, d) != 0, A > 0, A < h.alloc,
                 forall([r], imp(rng(r, 0, h.len(cand)), z3.And(
                     D.it.is_op(h.at(cand, r)), D.it.pos(h.at(cand, r)) == D.kj(D.it.jid(h.at(cand, r))),
                     member(h, A, h.at(cand, r)))), patterns=[h.at(cand, r)]))),
-                ("scoring-functions-list-untouched", z3.And(h.len(fl) == k.h0.len(fl), h.elarr(fl) == k.h0.elarr(fl)))] \
-                + reach(h, d) + cache_ok(h, d)
+                ("scoring-functions-list-untouched", z3.And(h.len(fl) == k.h0.len(fl), h.elarr(fl) == k.h0.elarr(fl))),
+                ("rounds", z3.And(K == k.i, k.n == h.len(fl))),
+                ("score-lists", forall([q], imp(rng(q, 0, k.i), z3.And(
+                    z3.Select(S, q) > 0, z3.Select(S, q) < h.alloc, h.len(z3.Select(S, q)) == D.it.J)),
+                    patterns=[z3.Select(S, q)])),
+                ("candidates-survived-every-round", forall([r], imp(rng(r, 0, h.len(cand)),
+                                                                    z3.Select(lvl, h.at(cand, r)) == k.i),
+                                                           patterns=[h.at(cand, r)]))] \
+                + tb_levels(h, d, A, k.i, cand) + reach(h, d) + cache_ok(h, d) + cache_effect(k.h0, h, d)
 
         def mod(k):
-            return query_frame(k, k["dispatcher"])
+            fr = query_frame(k, k["dispatcher"])
+            for f in ("$$tb_S", "$$tb_best", "$$tb_lvl", "$tb_K"):
+                fr.fields[f] = [k["dispatcher"]]
+            return fr
         return {0: LoopSpec("for scoring_function in score_functions", inv, mod)}
 
 
